@@ -183,7 +183,9 @@ func c29Grammars(c *fw.Ctx, n int) []*c29Grammar {
 		v := len(out) + c.Case
 		la := v%2 == 1
 		nested := la && v%4 == 1 // lookahead predicates evaluated while another lookahead is running
-		g := recgram.RandSkeleton(r, recgram.SkelOptions{Lookahead: la, NestedLookahead: nested})
+		// two in three lookahead grammars: every decision has three alternatives, i.e. the lookahead rule is a chain of two lookaheads
+		multi := la && r.Intn(3) > 0
+		g := recgram.RandSkeleton(r, recgram.SkelOptions{Lookahead: la, NestedLookahead: nested, MultiCase: multi})
 		var o recgram.TextOpts
 		o.Opts = append(o.Opts, "cancellable = true")
 		key := "cancellable"
@@ -201,6 +203,9 @@ func c29Grammars(c *fw.Ctx, n int) []*c29Grammar {
 			key += "+lookahead(session)"
 			if nested {
 				key += "+nested"
+			}
+			if multi {
+				key += "+multicase"
 			}
 			if nested || r.Intn(2) == 0 {
 				o.Opts = append(o.Opts, "recursiveLookaheads = true")
@@ -635,7 +640,7 @@ func c29Run(c *fw.Ctx) {
 func init() {
 	fw.Register(&fw.Check{
 		ID:          "C29",
-		Rule:        "generated cases: statement/expression skeleton grammars printed with cancellable = true and varying cancellableFetch, tokenStream, (?= ...) lookaheads over whole parenthesised lists (shift counter in the session, advanced by lookahead shifts), nested lookaheads (a predicate inside the list another predicate scans) with recursiveLookaheads, error recovery, table options; sentences of 10-100, 300-1500 and 2000-5000 tokens plus mutated ones. Shipped cases: js (3 dialects), tm, test parsers in-process on concatenated test-suite snippets / repository grammars (extended with extra rules) of up to several thousand tokens. Every input is first parsed uncancelled (reference), then once per schedule: cancellation at every ctx.Done() poll number k up to the uncancelled poll count (a counting context closes its channel inside the k-th poll), from inside the listener at events 1, 2, every 97th and the last, before the start, and asynchronously from a second goroutine (one generated case is built with -race; a race report is a violation). Offline monitor per cancelled parse: result is the context error or (result, value, event count+hash) equals the uncancelled run; events and handler calls are a prefix of the uncancelled ones (rolling hash); if the uncancelled run shifted every token (accepted, no handler call) and >= 514 tokens remained after the cancel point (lexer offset recorded at the poll/event; for shipped token-stream parsers read from the stream's lexer by reflection), the result must be the context error and the last event must end within 513 tokens of the cancel point. Non-trivial/distinct: grammar with >=50 judged cancelled parses; shipped input with >=1 poll",
+		Rule:        "generated cases: statement/expression skeleton grammars printed with cancellable = true and varying cancellableFetch, tokenStream, (?= ...) lookaheads over whole parenthesised lists (shift counter in the session, advanced by lookahead shifts), nested lookaheads (a predicate inside the list another predicate scans) with recursiveLookaheads, lookahead decisions with three alternatives ((?= A), (?= !A & B), (?= !A & !B): chains of two lookahead calls), error recovery, table options; sentences of 10-100, 300-1500 and 2000-5000 tokens plus mutated ones. Shipped cases: js (3 dialects), tm, test parsers in-process on concatenated test-suite snippets / repository grammars (extended with extra rules) of up to several thousand tokens. Every input is first parsed uncancelled (reference), then once per schedule: cancellation at every ctx.Done() poll number k up to the uncancelled poll count (a counting context closes its channel inside the k-th poll), from inside the listener at events 1, 2, every 97th and the last, before the start, and asynchronously from a second goroutine (one generated case is built with -race; a race report is a violation). Offline monitor per cancelled parse: result is the context error or (result, value, event count+hash) equals the uncancelled run; events and handler calls are a prefix of the uncancelled ones (rolling hash); if the uncancelled run shifted every token (accepted, no handler call) and >= 514 tokens remained after the cancel point (lexer offset recorded at the poll/event; for shipped token-stream parsers read from the stream's lexer by reflection), the result must be the context error and the last event must end within 513 tokens of the cancel point. Non-trivial/distinct: grammar with >=50 judged cancelled parses; shipped input with >=1 poll",
 		Assumptions: []string{"the uncancelled run of the same parser is the reference (its correctness is C01/C02)", "token positions of generated inputs come from the renderer; for shipped parsers from a fresh run of the shipped lexer"},
 		Cases: func(tier string) int {
 			a, b, s := c29Layout(tier)
